@@ -264,16 +264,20 @@ func checkC10(c *Check) {
 		c.Anchor("route.newLeaf")
 	}
 	if sm := p.Meth("route", "staticLeaf", "match"); sm != nil {
-		m1, pos := false, false
+		// a true verdict implies literals == segment (in any control-flow shape)
+		eq := cCmp(token.EQL, vField(vParam(sm, 0), "literals"), vParam(sm, 1))
+		g := edgesWhere(sm, eq, true)
+		isEq := func(v ssa.Value) bool { m, ps := eq(v); return m && ps }
+		okAll, n := true, 0
 		allInstrs(sm, func(in ssa.Instruction) {
-			if b, ok := in.(*ssa.BinOp); ok && b.Op == token.EQL {
-				mm, pp := cCmp(token.EQL, vField(vParam(sm, 0), "literals"), vParam(sm, 1))(b)
-				if mm {
-					m1, pos = mm, pp
+			if r, isR := in.(*ssa.Return); isR && len(r.Results) == 1 {
+				n++
+				if ok, _ := boolImplies(sm, r.Results[0], r.Block(), isEq, g); !ok {
+					okAll = false
 				}
 			}
 		})
-		c.Cond(m1 && pos, p.FuncKey(sm)+":exact-compare", p.FuncPos(sm), "static leaf: literals == segment", "the static leaf does not compare its literal text with the request segment exactly")
+		c.Cond(okAll && n > 0, p.FuncKey(sm)+":exact-compare", p.FuncPos(sm), "static leaf: a match implies literals == segment", "the static leaf does not compare its literal text with the request segment exactly")
 	}
 	if sm := p.Meth("route", "staticTree", "match"); sm != nil {
 		okT := false
